@@ -7,6 +7,7 @@ here="$(cd "$(dirname "$0")/.." && pwd)"
 : > "$out"
 for pre in "${@:-C}"; do
   for d in "$here"/harmless/$pre*/; do
+    [ -f "$d/patch.diff" ] || continue
     echo "##### $(basename $d)" >> "$out"
     "$here"/tools/harmcheck.sh "$d/patch.diff" 2>&1 | grep -v WARNING | grep "suite:\|rc=\|PATCH" >> "$out"
   done
